@@ -205,4 +205,104 @@ theorem steering_opposes_offset (A : Arith) (L : SignLaws A) (c : Cfg) (e unc t 
       exact s4
     · cases h
 
+/-! ### the noise estimator's window -/
+
+/-- the window test of the noise estimator, spelled out: both times below 2^127 and |a − b| < threshold -/
+theorem closeInTime_spec (a b : Nat) (thr : Int) (h : closeInTime a b thr = some true) :
+    ((a : Int) - (b : Int) < thr) ∧ ((b : Int) - (a : Int) < thr) := by
+  unfold closeInTime timeSub at h
+  split at h
+  · unfold durSub durNeg at h
+    split at h
+    · simp at h
+    · rename_i nb hnb
+      split at hnb
+      · simp only [Option.some.injEq] at hnb
+        subst hnb
+        unfold durAdd at h
+        split at h
+        · simp only [Option.bind_some] at h
+          unfold durAbs at h
+          split at h
+          · unfold durNeg at h
+            split at h
+            · simp only [Option.map_some, Option.some.injEq, decide_eq_true_eq] at h
+              constructor <;> omega
+            · simp at h
+          · simp only [Option.map_some, Option.some.injEq, decide_eq_true_eq] at h
+            constructor <;> omega
+        · simp at h
+      · simp at hnb
+  · simp at h
+
+/-- **The noise estimator only pairs measurements that are close in time.** A delay measurement adds a sample to
+the estimator's window only together with a stored Sync measurement whose event time differs from its own by
+less than `estimate_threshold`, in either direction (the test is on the absolute difference: a measurement
+stamped before a backward step of the clock is not paired with one taken after it merely because the
+difference is negative). -/
+theorem noise_sample_needs_close_pair_delay (A : Arith) (e e' : Est) (m : Meas) (freq : Nat) (c : Cfg)
+    (h : e.absorbDelay A m freq c = some e') (hins : e'.nextIdx ≠ e.nextIdx) :
+    ∃ time so dof, e.lastSync = some (time, so) ∧ m.rawDelay = some dof ∧
+      ((m.eventTime : Int) - time < c.et) ∧ ((time : Int) - m.eventTime < c.et) := by
+  unfold Est.absorbDelay at h
+  cases hd : m.rawDelay with
+  | none => rw [hd] at h; simp only [Option.some.injEq] at h; subst h; exact absurd rfl hins
+  | some dof =>
+    rw [hd] at h
+    simp only at h
+    cases hs : e.lastSync with
+    | none =>
+      rw [hs] at h
+      simp only [Option.some.injEq] at h
+      subst h; exact absurd rfl hins
+    | some p =>
+      obtain ⟨time, so⟩ := p
+      rw [hs] at h
+      simp only at h
+      cases hc : closeInTime m.eventTime time c.et with
+      | none => rw [hc] at h; simp at h
+      | some close =>
+        rw [hc] at h
+        simp only [Option.bind_some] at h
+        cases close with
+        | false =>
+          simp only [Bool.false_eq_true, ↓reduceIte, Option.some.injEq] at h
+          subst h; exact absurd rfl hins
+        | true =>
+          have := closeInTime_spec _ _ _ hc
+          exact ⟨time, so, dof, rfl, rfl, this.1, this.2⟩
+
+theorem noise_sample_needs_close_pair_sync (A : Arith) (e e' : Est) (m : Meas) (freq : Nat) (c : Cfg)
+    (h : e.absorbSync A m freq c = some e') (hins : e'.nextIdx ≠ e.nextIdx) :
+    ∃ time dof so, e.lastDelay = some (time, dof) ∧ m.rawSync = some so ∧
+      ((m.eventTime : Int) - time < c.et) ∧ ((time : Int) - m.eventTime < c.et) := by
+  unfold Est.absorbSync at h
+  cases hd : m.rawSync with
+  | none => rw [hd] at h; simp only [Option.some.injEq] at h; subst h; exact absurd rfl hins
+  | some so =>
+    rw [hd] at h
+    simp only at h
+    cases hs : e.lastDelay with
+    | none =>
+      rw [hs] at h
+      simp only [Option.some.injEq] at h
+      subst h; exact absurd rfl hins
+    | some p =>
+      obtain ⟨time, dof⟩ := p
+      rw [hs] at h
+      simp only at h
+      cases hc : closeInTime m.eventTime time c.et with
+      | none => rw [hc] at h; simp at h
+      | some close =>
+        rw [hc] at h
+        simp only [Option.bind_some] at h
+        cases close with
+        | false =>
+          simp only [Bool.false_eq_true, ↓reduceIte, Option.some.injEq] at h
+          subst h; exact absurd rfl hins
+        | true =>
+          have := closeInTime_spec _ _ _ hc
+          exact ⟨time, dof, so, rfl, rfl, this.1, this.2⟩
+
+
 end Statime.C02
